@@ -115,9 +115,13 @@ CHECKS["C05"] = dict(
   note="Claimed in part. Trusted and outside: as C04. The calendar helpers (TimeToMicroseconds/MicrosecondsToTime/DurationFromDateTime agreeing with the proleptic Gregorian calendar for years 1..9999), the temporal layouts, UNITEXT as UTF-16LE and the big-endian byte order setting are not decided (solver unknown / not modelled).",
   ref="DESIGN.md §4 C05")
 
-NOT_APPLICABLE = {
- "C17": "not applicable to solver-based checking of the real code here: both DSN forms go through dsn.TagToField/setValue, which walk arbitrary struct types with reflect (runtime type graph, tag lookup, Value.Set*), and the URI form through net/url parsing and escaping; neither can be encoded by our go/ssa executor within reach, and stubbing them by contract would make the round trip true by assumption (DESIGN.md section 5)",
-}
+CHECKS["C17"] = dict(
+  technique="symbolic execution of go/ssa with SMT (z3): arbitrary symbolic DSN bytes through the real ParseSimple/Parse/ParseURI, FormatSimple/FormatURI followed by the parser for symbolic field values; the real net/url runs from its SSA, reflect is an engine model cross-checked natively",
+  text="Bounded symbolic model checking of the real dsn.ParseSimple, FormatSimple, Parse, ParseURI, FormatURI, TagToField/tagToField and setValue together with the real net/url (Parse, URL.String, Values.Encode, ParseQuery, escaping) executed from SSA. Simple form: N<=9 (quick) / 12 (thorough) arbitrary bytes never panic; any key of <=4 bytes that is no tag or alias is rejected; for every text field a later key or alias overrides; FormatSimple->ParseSimple round trip for texts of <=3/4 printable-ASCII bytes without quotes and backslashes (spaces and '=' anywhere), ints of <=4 digits incl. negatives, bools, embedded and named structs. URI form: a:// followed by <=2/3 arbitrary ASCII bytes and a://h:1/? followed by <=3/4 arbitrary ASCII bytes never panic; unknown query keys are rejected and the last value of a repeated key wins (keys of <=4 letters); FormatURI->Parse round trip with one of user/password/database/property carrying <=1/2 arbitrary bytes (all 256 values) or a symbolic bool and int, and with all four texts at once over upper-case letters (<=2,2,4,4).",
+  note="Claimed in part. Trusted: symgo executor, z3, the engine's reflect model (typed cell references; types and tags from go/types) - cross-checked against the real reflect by the native witness runs of every harness -, models of strings.Builder/bytealg helpers/%q/ParseInt. Outside: texts longer than the stated bounds, non-ASCII bytes where net/url ranges over runes, FromEnv (process environment), scheme/host/port texts in the URI form, target struct kinds that setValue rejects.",
+  ref="DESIGN.md §4 C17")
+
+NOT_APPLICABLE = {}
 
 # thorough tiers that were run clean on the unchanged tree; the others are quick only
 THOROUGH_OK = {"C01", "C03", "C04", "C05", "C06", "C07", "C08", "C09", "C12", "C13", "C14", "C15", "C16", "C18", "C19", "C20"}
